@@ -6,7 +6,7 @@
 //! ops (the descriptor is named by `<file relative to the data dir>:<message full name>`; the
 //! second input is its serialisation for the Lean model, see lean/VrlModel/ProtoWire.lean):
 //!   c26.rt    desc pool v   -> `err` (encode_proto failed) | `perr` (parse_proto failed) | `ok <value>`
-//!   c26.pv    desc pool v   -> `err` | `ok <abstract wire value of encode_message(v)>`
+//!   c26.pv    desc pool v   -> `err` | `ok <abstract wire value of encode_message(v)>`   (c26.pvs: strict string coercion)
 //!   c26.parse desc pool pv  -> `perr` | `ok <value>`   (proto_to_value on a DynamicMessage built from pv)
 //!   o.c26     desc pool v   -> observations: accepted? + result of the round trip
 //!   o.c26.wire desc pool v  -> observations: message before / after DynamicMessage encode+decode
@@ -389,9 +389,14 @@ fn pv_of_text(s: &str, e: &Entry) -> Option<prost_reflect::Value> {
     if pos == toks.len() { Some(v) } else { None }
 }
 
-fn encode_message(e: &Entry, v: &Value) -> Result<Result<DynamicMessage, String>, String> {
+fn encode_message_opt(e: &Entry, v: &Value, lossy: bool) -> Result<Result<DynamicMessage, String>, String> {
     let (d, v) = (e.desc.clone(), v.clone());
-    guarded(move || vrl::protobuf::encode::encode_message(&d, v, &vrl::protobuf::encode::Options::default()))
+    let options = vrl::protobuf::encode::Options { use_json_names: false, allow_lossy_string_coercion: lossy };
+    guarded(move || vrl::protobuf::encode::encode_message(&d, v, &options))
+}
+
+fn encode_message(e: &Entry, v: &Value) -> Result<Result<DynamicMessage, String>, String> {
+    encode_message_opt(e, v, true)
 }
 
 fn hx(s: &str, n: usize) -> Option<u64> {
@@ -423,6 +428,19 @@ pub fn exec(op: &str, a: &[String]) -> Option<Reply> {
             }
             let v = parse_value(v)?;
             Some(Reply::plain(match encode_message(e, &v) {
+                Ok(Ok(m)) => format!("ok {}", show_msg(&m, e)),
+                Ok(Err(_)) => "err".to_string(),
+                Err(_) => "panic".to_string(),
+            }))
+        }
+        // strict mode: `allow_lossy_string_coercion: false`
+        ("c26.pvs", [id, pool, v]) => {
+            let e = entry(id)?;
+            if *pool != e.pool_text {
+                return None;
+            }
+            let v = parse_value(v)?;
+            Some(Reply::plain(match encode_message_opt(e, &v, false) {
                 Ok(Ok(m)) => format!("ok {}", show_msg(&m, e)),
                 Ok(Err(_)) => "err".to_string(),
                 Err(_) => "panic".to_string(),
@@ -776,6 +794,9 @@ fn emit_value(sink: &mut Sink, rng: &mut Rng, e: &Entry, v: &Value, tag: &str) {
         ));
     }
     let pv = sink.emit("c26.pv", &args);
+    if tag == "mutated" {
+        sink.emit("c26.pvs", &args);
+    }
     sink.emit("o.c26", &args);
     if sink.emit("o.c26.wire", &args).is_some() {
         sink.count("c26:wire_law_samples");
